@@ -6,8 +6,9 @@ minimal .debug_info/.debug_abbrev whose compile units designate the programs thr
 DW_AT_stmt_list, and the string sections the v5 tables refer to - all bytes computed by the
 specification.  The driver hands the blobs to DWARFInfo, walks iter_CUs(), calls
 line_program_for_CU(cu) and compares, with the spec's expectations: header scalars, directory /
-file tables (legacy and v5 forms), program extent, and the sequence of entries with non-None state
-field by field.  Expected values are never computed here; Python only concretises and compares.
+file tables (legacy and v5 forms), program extent, the sequence of entries with non-None state
+field by field, and the identification (command, is_extended, operands) of every entry against the
+spec's instruction stream.  Expected values are never computed here; Python only concretises and compares.
 T (no hook): the public rows of the corpus line programs are validated by TLC against the spec's byte
 machine re-run over the raw program bytes (spec/trace/LineProgramTrace.tla)."""
 import io
@@ -144,6 +145,70 @@ def _check_rows(run, brief, tag, u, entries):
             run.compare('rows.' + f, tag, brief, ecol, ocol)
 
 
+# API vocabulary: the instruction kinds (spec names) whose entry args are the instruction's own operands as encoded.
+# Other entries report derived quantities (address / line increments), which are display conventions (not compared).
+ARGS_ARE_OPERANDS = {'set_file', 'set_column', 'fixed_advance_pc', 'set_isa', 'unknown_std', 'set_address', 'define_file'}
+
+
+def _obs_args(args):
+    out = []
+    for a in args:
+        if hasattr(a, 'name') and hasattr(a, 'dir_index'):        # a file entry (DW_LNE_define_file)
+            out += [_obs(a.name), a.dir_index, a.mtime, a.length]
+        else:
+            out.append(_obs(a))
+    return out
+
+
+def _subseq(entries, instrs):
+    """Greedy embedding of the entries' (command, is_extended) into the instruction stream -> matched instructions or None."""
+    m = []
+    j = 0
+    for e in entries:
+        while j < len(instrs) and (instrs[j][0], instrs[j][1]) != (e.command, bool(e.is_extended)):
+            j += 1
+        if j == len(instrs):
+            return None
+        m.append(instrs[j])
+        j += 1
+    return m
+
+
+def _check_entries(run, brief, tag, u, entries):
+    """The entry list against the spec's instruction stream `ins` = [opcode, extended?, emits a row?, operands, kind]:
+    entries with a state are exactly the row-emitting instructions; between two of them the state-less entries
+    identify, in order, instructions of that stretch of the program (which instructions leave an entry is a display
+    convention: subsequence); args that are the instruction's operands equal the encoded operands."""
+    ins = u['ins']
+    if sum(1 for i in ins if i[2]) != sum(1 for e in entries if e.state is not None):
+        return                                   # reported by rows.count
+    segs_i, segs_e = [[]], [[]]
+    for i in ins:
+        segs_i[-1].append(i)
+        if i[2]:
+            segs_i.append([])
+    for e in entries:
+        segs_e[-1].append(e)
+        if e.state is not None:
+            segs_e.append([])
+    for si, se in zip(segs_i, segs_e):
+        keys_e = [[e.command, bool(e.is_extended)] for e in se]
+        keys_i = [[i[0], i[1]] for i in si]
+        m = None
+        if not se or (si and si[-1][2] and keys_e[-1] == keys_i[-1]):
+            head = _subseq(se[:-1], si[:-1]) if se else []
+            m = None if head is None else head + ([si[-1]] if se else [])
+        elif not si or not si[-1][2]:            # the stretch after the last row (empty for closed programs)
+            m = _subseq(se, si)
+        if m is None:
+            run.mismatch('entries.opcode', tag, brief, {'a subsequence, ending with the last one, of': keys_i}, keys_e)
+            return
+        for e, i in zip(se, m):
+            if i[4] in ARGS_ARE_OPERANDS:
+                run.compare('entries.args', tag, brief, [i[0], i[1], [_val(v) for v in i[3]]],
+                            [e.command, bool(e.is_extended), _obs_args(e.args)])
+
+
 def _replay(run, case, n):
     units = case['units']
     brief = {'mode': case['mode'], 'le': case['le'], 'line_b64': core.b64(case['line']), 'info_b64': core.b64(case['info']),
@@ -212,6 +277,7 @@ def _replay(run, case, n):
             run.mismatch('decode', 'unknown_std' if u['unk'] else tag, brief, '%d rows' % len(u['rows']), 'exc:%s:%s' % (type(ex).__name__, ex))
             continue
         _check_rows(run, brief, tag, u, entries)
+        _check_entries(run, brief, tag, u, entries)
         try:
             _check_tables(bad, u, lp, after=True)
         except core.CallTimeout:
@@ -344,9 +410,16 @@ def check(run):
     by_tag = {}
     n = 0
     timeouts = 0
+    from concurrent.futures import ThreadPoolExecutor
+    pool = ThreadPoolExecutor(max_workers=1)
+
+    def tlc(cfg, sim, depth):
+        return run.tlc('LineProgram', cfg, simulate=sim, depth=depth, workers=(1 if sim else None), timeout=3000,
+                       env={'JAVA_TOOL_OPTIONS': '-Xss32m'})
+    # the simulation is a single-worker TLC run: it runs beside the exhaustive configurations and their replay
+    simrun = {p[0]: pool.submit(tlc, *p) for p in plans if p[1]}
     for cfg, sim, depth in plans:
-        res = run.tlc('LineProgram', cfg, simulate=sim, depth=depth, workers=(1 if sim else None), timeout=3000,
-                      env={'JAVA_TOOL_OPTIONS': '-Xss32m'})
+        res = simrun[cfg].result() if cfg in simrun else tlc(cfg, sim, depth)
         if 'Error:' in res.stdout:
             # TLC can report an evaluation error (e.g. a Java stack overflow) and still exit 0
             raise core.MachineryError('TLC reported an error on %s\n%s' % (cfg, res.stdout[res.stdout.index('Error:'):][:1500]))
@@ -379,6 +452,7 @@ def check(run):
                 run.mismatch('timeout', case['units'][0]['tag'], {'mode': case['mode'], 'line_b64': core.b64(case['line']),
                                                                   'info_b64': core.b64(case['info']), 'prog': case['prog']},
                              'an answer', str(ex))
+    pool.shutdown()
     run.validated = run.evaluations
     _corpus(run, quick)
     run.extra['cases_by_mode'] = by_mode
